@@ -6,7 +6,7 @@ set -u
 id="$1"; patch="$(readlink -f "$2")"; tier="${3:-quick}"
 lc=$(echo "$id" | tr A-Z a-z)
 tag="$lc-$$"
-wt=/tmp/mc-wt-$tag; out=/tmp/mc-out-$tag; bin=/tmp/mc-bin-$lc
+wt=/tmp/mc-wt-$tag; out=/tmp/mc-out-$tag; bin=/tmp/mc-bin-$tag   # per run: concurrent runs on one property must not share binaries
 git -C /repo worktree add --detach "$wt" HEAD -q || exit 3
 # untracked hook files of /repo (new tagged files not yet committed)
 (cd /repo && git ls-files --others --exclude-standard | grep '\.go$' | while read f; do mkdir -p "$wt/$(dirname $f)"; cp "$f" "$wt/$f"; done)
@@ -18,4 +18,5 @@ rc=$?
 grep -aE "^(VIOLATION|KNOWN-FINDING|HARNESS-PROBLEM|BUILD-FAILED|C[0-9][0-9]:|  clause=)" "$out/run.txt" | cut -c1-260 | head -12
 echo "exit=$rc out=$out"
 git -C /repo worktree remove --force "$wt"
+rm -rf "$bin"
 exit $rc
